@@ -110,7 +110,8 @@ def read_view(ro):
     """Every documented read accessor of a live RunningOrder -> {'view': …} or {'crash': name}."""
     from . import impl
     import warnings
-    impl.apply_cfg(impl.cfg_for(str(len(ro.xml)) + (ro.xml.findtext('messageID') or '') + str(sum(1 for _ in ro.xml.iter()))))
+    from xml.etree import ElementTree as _ET
+    impl.apply_cfg(impl.cfg_for(_ET.tostring(ro.xml, encoding='unicode')))
     try:
         with warnings.catch_warnings():
             warnings.filterwarnings('error', category=DeprecationWarning)     # see impl.add
